@@ -199,6 +199,13 @@ def shard(args):
                         ops = ["edit vjob.video_duration", "edit sv.pue"]
                 else:
                     spec = specgen.gen_safe_spec(rng, realsys.unit_info, allow_delete=(i % 2 == 0), same_window=True, single_zone=True)
+                    if i % 3 == 1:
+                        # hourly series with the same start and length but a missing hour in one of them
+                        sp2 = specgen.plant_dst_pair(specgen.gen_safe_spec(rng, realsys.unit_info, allow_delete=False, same_window=True,
+                                                                           single_zone=True, n_patterns=rng.choice([2, 3])), rng)
+                        if specgen.spec_is_safe(sp2, realsys.unit_info):
+                            spec = sp2
+                            kind = "generated-dst-pair"
                     live = Live(spec)
                     for _ in range(rng.randint(0, 3)):
                         op = eo.gen_op(rng, live.spec, True)
